@@ -193,6 +193,13 @@ def unfold(sp: Spec, fam: str, r, params: tuple) -> None:
         if key not in path.unfolded:
             path.unfolded.add(key)
             sp.S.park(sp.ip, r, lambda: unfold(sp, fam, r, params))
+            if fam == "den":
+                # the class may become known to the solver only (an alias `a is b` of an object of known class): the
+                # denotation of the three leaf classes is stated under a class guard straight away
+                E_, PV_ = params
+                K_ = sp.K
+                path.assume(z3.Implies(K_.is_kind(r, "Variable"), sp.S.DEN(r, E_, PV_) == z3.Select(E_, sp.S.F("name", Name)(r))))
+                path.assume(z3.Implies(K_.is_kind(r, "Constant"), sp.S.DEN(r, E_, PV_) == sp.S.F("value", R)(r)))
         return
     key = f"unf:{fam}:{r}:{params}"
     if key in path.unfolded:
